@@ -73,4 +73,11 @@ def readIndex (b : Bytes) (pos : Nat) : Outcome ((List Bytes × Nat) × Cost) :=
   let (res, c) ← items buf offsets count count 0 c
   .ok ((res, pos' + total), c)
 
+/-- `readIndexAt(p, pos, name)` (index.go:29-39), `pos` an int32: `pos < 4` is the error
+`errors.New("cff: missing … INDEX")` (class "other"); `p.SeekPos(int64(pos))` on an in-memory
+reader fails only for negative positions, which are excluded here; then `readIndex`.  No index /
+slice / make site of its own (the inventory `cff.readIndexAt.json` is empty). -/
+def readIndexAt (b : Bytes) (pos : Int) : Outcome ((List Bytes × Nat) × Cost) :=
+  if pos < 4 then .err "other" else readIndex b pos.toNat
+
 end SfntV.Total.NameCff
